@@ -104,7 +104,7 @@ def find_items(toks, kind, name):
                     j = match_close(toks, j)
                 j += 1
             end, body = j + 1, None
-        elif kind in ("struct", "trait"):
+        elif kind in ("struct", "trait", "enum"):
             j = i
             while toks[j].text not in ("{", ";"):
                 if toks[j].text in "([":
